@@ -48,6 +48,20 @@ class Obligation:
         }
 
 
+_REF_COUNTS = None
+
+
+def _reference_counts():
+    global _REF_COUNTS
+    if _REF_COUNTS is None:
+        try:
+            with open(os.path.join(os.path.dirname(os.path.dirname(os.path.abspath(__file__))), "reference", "obligation_counts.json")) as f:
+                _REF_COUNTS = json.load(f)
+        except (OSError, ValueError):
+            _REF_COUNTS = {}
+    return _REF_COUNTS
+
+
 class Report:
     def __init__(self, pid, tier, seed=0):
         self.pid = pid
@@ -171,6 +185,21 @@ class Report:
                     continue
             kept.append(o)
         new_viol = kept
+        # no rule may lose instances silently: the number of obligations filed under each rule is
+        # compared with the number on the tree the instances were confirmed on
+        # (reference/obligation_counts.json, tools/gen_counts.py).  Fewer, with no analysis error
+        # that explains it, means a rule skipped something without saying so.
+        counts = {}
+        for o in self.obligations:
+            counts[o.rule] = counts.get(o.rule, 0) + 1
+        self.rule_counts = counts
+        if not os.environ.get("HV_NO_COUNTS"):
+            ref = _reference_counts().get(self.pid, {})
+            explained = {e.get("rule") for e in self.errors}
+            for rule, c in sorted(ref.items()):
+                got = counts.get(rule, 0)
+                if got < c and not (explained & {rule, "internal", "anchor"}) and not any(str(r).startswith(rule + ".") for r in explained):
+                    self.errors.append({"rule": rule, "site": "", "message": "%d obligation(s) evaluated under this rule, %d on the confirmed tree: rule instances vanished without a report" % (got, c)})
         os.makedirs(os.path.join(EVIDENCE_DIR, "replay"), exist_ok=True)
         lines = []
         for o, k in known_hit:
@@ -225,6 +254,7 @@ class Report:
             "known_findings_hit": [k.get("id") for _, k in known_hit],
             "new_violations": [o.as_dict() for o in new_viol],
             "analysis_errors": self.errors,
+            "rule_counts": self.rule_counts,
             "not_decided": self.not_decided,
             "all_obligations": [o.as_dict() for o in self.obligations]
             if self.tier == "thorough"
